@@ -17,8 +17,8 @@ FUNCTIONS = ["Scalar.__mul__/__truediv__/__floordiv__/__pow__/__rmul__/__rtruedi
              "Quantity.CreateDerived/_CreateDerived/GetCategoryToUnitAndExpsCopy", "ObtainQuantity (derived keys)"]
 BOUNDS = {
     "quick": "values: all reals (divisors != 0 by path condition); both operands drawn from shapes %s over 3 units per type, seeded sample "
-             "of 500 (shape pair, unit assignment) configurations x operators *,/,// plus a**n n<=3; exponents reach -4..4" % exprs.QUICK,
-    "thorough": "values: all reals; shapes %s, 4 units per length, categories length+depth, seeded sample of 30000 configurations; a**n n<=4"
+             "of 500 (shape pair, unit assignment) configurations x operators *,/,// plus a**n n<=5; exponents reach -4..4" % exprs.QUICK,
+    "thorough": "values: all reals; shapes %s, 4 units per length, categories length+depth, seeded sample of 30000 configurations; a**n n<=8"
                 % exprs.THOROUGH,
 }
 ASSUMPTIONS = ["A-FP: floats are exact reals", "dimensional model: magnitude = value * prod(slope(tobase_unit)^exp), scale-only units",
@@ -42,7 +42,7 @@ def items(tier, seed):
     for nm in names:
         for A in rng.sample(pool[nm], min(len(pool[nm]), 3 if tier == "quick" else 12)):
             if n_leaves(A) <= 2:
-                for e in ([2, 3] if tier == "quick" else [1, 2, 3, 4]):
+                for e in ([2, 3, 4, 5] if tier == "quick" else [1, 2, 3, 4, 5, 6, 8]):
                     out.append({"A": A, "B": None, "op": "pow", "n": e})
             out.append({"A": A, "B": A, "op": "self_div"})
     for i, c in enumerate(out):
